@@ -362,6 +362,9 @@ bool Terminal::Impl::executeRunHistoryCmd(SessionContext *s, const Args &args)
             s->wp_conn->send(s->token, "Error: index out of range.\r\n");
     } catch (const invalid_argument &e) {
         s->wp_conn->send(s->token, "Error: parse index fail.\r\n");
+    } catch (const out_of_range &e) {
+        //! the number does not fit an int, so it cannot address any stored entry
+        s->wp_conn->send(s->token, "Error: index out of range.\r\n");
     }
 
     return false;
